@@ -1873,7 +1873,7 @@ static vbi_bool vbi_proxyd_send_sliced( PROXY_CLNT * req, vbi_bool * p_blocked )
       /* XXX TODO allow both raw and sliced in the same message */
       if (VBI_RAW_SERVICES(req->all_services) == FALSE)
       {
-         for (idx = 0; (idx < req->p_sliced->line_count) && (idx < max_lines); idx++)
+         for (idx = 0; (idx < req->p_sliced->line_count) && ((int) p_msg->body.sliced_ind.sliced_lines < max_lines); idx++)
          {
             if ((req->p_sliced->lines[idx].id & req->all_services) != 0)
             {
